@@ -11,6 +11,20 @@ COMMON_NOTE = ("Trusted: Lean 4.33 kernel; the hand-written Lean model (lean/Pat
                "transcript replay by lean/Main.lean); the harness generators; Linux 6.18 as the environment. ")
 
 CLAIMS = {
+    "C03": dict(
+        text="Lean theorems (Props/C03.lean), for every environment incl. attackers and arbitrary directory listings: every "
+             "unlinkat and directory open of remove_all names one slash-free component that is neither '.' nor '..' below the "
+             "directory it was given or one it opened that way, and it makes no other mutating call; the creating loop of "
+             "mkdir_all only creates/enters non-empty proper components (the '..' check and the filter are part of the theorem); "
+             "a trailing slash makes create/remove_all equal to 'resolve parent; close; InvalidArgument' (the mutating call is "
+             "unreachable); the single-entry operations call (resolved parent descriptor, single component) [Disc]. Tie: all "
+             "mutating operations on generated trees on both backends replayed through the model. Oracle: snapshot of a sentinel "
+             "tree surrounding the root before/after every call.",
+        note="Semantic half (the parent descriptor was inside the root at some moment) rests on C02's containment argument and "
+             "the kernel's fd-relative semantics; attacker interleavings are covered by the theorems (any environment) and by "
+             "C02's attacker suite, not by this suite.",
+        technique="Lean 4 proof (Safe logic with a mutation-target predicate, program equalities) + outside-snapshot differential",
+        ref="DESIGN.md §8 C03"),
     "C05": dict(
         text="Lean theorems (Props/C05.lean): for every Root / procfs operation of the model and every environment that never "
              "returns a negative descriptor, every system call satisfies the decidable discipline predicate Disc "
@@ -70,6 +84,19 @@ CLAIMS = {
              "exercised by the tie. Over-mounts on /proc: corollary of C06 (the link is verified with verify_same_mnt).",
         technique="Lean 4 proof (total/injective function, program shape, run inversion) + descriptor-number x history differential",
         ref="DESIGN.md §8 C09"),
+    "C11": dict(
+        text="Lean theorems (Props/C11.lean): for every environment, every call by which an operation can obtain a descriptor "
+             "(openat, openat2, dup, fsopen, fsmount, open_tree) asks for close-on-exec — in particular the returned descriptor "
+             "is close-on-exec (corollary of the discipline theorems, for every API operation and for the procfs handle "
+             "constructors). Tie: the model closes descriptors explicitly where Rust drops them; on every replayed case the "
+             "multiset of descriptors the model closes must equal the multiset the implementation closed (close(2) and "
+             "fcntl(F_DUPFD_CLOEXEC) are interposed in the harness). Oracle: the process's descriptor table (number, identity, "
+             "FD_CLOEXEC) before/after every API call of the suite, on success and error paths, Rust and C API.",
+        note="The leak-freedom statement itself (opened minus closed = returned) is established by the tie on every case, not "
+             "yet by an unbounded theorem over the explicit-close model (C11_no_leak_partial in DESIGN.md); RAII is the runtime "
+             "mechanism the model mirrors by hand.",
+        technique="Lean 4 proof (close-on-exec of every descriptor source) + close-multiset correspondence + fd-table oracle",
+        ref="DESIGN.md §8 C11"),
     "C15": dict(
         text="Lean theorems (Props/C15.lean): the decision the emulated resolver evaluates equals the kernel's may_follow_link "
              "(transcribed from fs/namei.c as early returns) for every sysctl value, caller uid, link owner, directory mode and "
